@@ -66,6 +66,11 @@
 (*                    carried by a request that is in the pool at the time *)
 (*   MainBeforeNvb    the main transaction is not sent from the smallest   *)
 (*                    NotValidBefore of its pooled requests on             *)
+(*   FallbackPooled   a fallback is sent only for a request still pooled   *)
+(*   MainOnce         (trace level) an instance does not hand over a main  *)
+(*                    transaction again that the node took from it         *)
+(*   NothingLost      (trace level) the pool holds no request the running  *)
+(*                    instance has not heard of                            *)
 (*   MainDue / FallbackDue  progress at rest (below)                       *)
 (*                                                                         *)
 (* Tables: TM[m] main transactions, TR[r] requests.                        *)
@@ -148,6 +153,10 @@ Withdrawn(TR, s) ==
 \* (held: the requests in the pool that the service instance has heard of)
 MainBeforeNvb(TR, held, s) ==
     s.kind = "main" => \A r \in held : TR[r].main = s.main => s.h < TR[r].nvb
+
+\* a fallback is sent for a request that is in the pool (judged on at-rest schedules only: between a block's pool refresh
+\* and the removal notification reaching the service a queued fallback may still go out)
+FallbackPooled(s) == s.kind = "fb" => s.req \in s.pool
 
 \* the service's own rules every send must obey (Withdrawn apart: see the Impl module)
 BeyondSendFails(TM, TR, arrived, held, s) ==
